@@ -49,6 +49,10 @@ def square_vector(J, d=3):
     return np.array([J[0] + i * J[1] - J[2] / (i + 1) for i in range(d)])
 
 
+def slow_scalar_kw(J, scale=1.0, offset=0.0):
+    return scale * (J[0] + 2 * J[1] + 3 * J[2]) + offset
+
+
 def kwargs_scalar(J, **kw):
     """takes its extras through **kwargs: no named parameter for them"""
     return kw.get("scale", 1.0) * (J[0] - J[1]) + kw.get("offset", 0.0)
@@ -69,6 +73,15 @@ def scratch_vector(J, buf=None, scale=1.0):
     buf[:3] = J
     time.sleep(0.002 * ((int(round(J[2] * 983)) * 5) % 3))
     return float(scale * (buf[0] + 10 * buf[1] + 100 * buf[2]))
+
+
+def normalised(J):
+    """a reduction over the components of one point: meaningless when several points are handed over at once"""
+    return J / J.max()
+
+
+def sorted_couplings(J):
+    return np.sort(J)
 
 
 def identity(J):
@@ -239,6 +252,49 @@ def run(ctx):
                 rep(f"parallel result (shape {data.shape}) differs from the serial evaluation with the same extra arguments (shape {serial.shape})"); continue
             ctx.case((name,), nontrivial=n_jobs > 1)
             ctx.count("parallel_runs_equal_serial")
+    # ---- the points of the symmetric scheme (the appended centre coincides with a grid point when 3 divides samples - 1: a repeated point), several worker counts
+    for s_ in ((4, 7, 10) if quick else (4, 7, 10, 13, 16, 19)):
+        sp, _ = pdg.get_triangular_sampling_points(s_)
+        dup = len(sp) - len(np.unique(np.round(sp, 12), axis=0))
+        ctx.count("symmetric_point_sets_with_a_repeated_point", int(dup > 0))
+        serial = np.array([slow_vector_fast(J) for J in sp]).T
+        for n_jobs in ((2, 3, 5, 7) if quick else (2, 3, 4, 5, 6, 7, 8, 11, 16)):
+            name = f"compute_phase_diagram(vector, symmetric points samples={s_}, n_jobs={n_jobs})"
+            try:
+                data = quiet(lambda: pdg.compute_phase_diagram(sp, slow_vector_fast, {}, n_jobs=n_jobs))
+            except Exception as ex:
+                ctx.impl_violation(f"{name}: raised {type(ex).__name__}: {ex}", dict(case=name, samples=s_, n_jobs=n_jobs)); continue
+            if data.shape != serial.shape or not np.array_equal(data, serial):
+                ctx.impl_violation(f"{name}: parallel result differs from the serial evaluation in values or order", dict(case=name, samples=s_, n_jobs=n_jobs)); continue
+            ctx.case((name,), nontrivial=True); ctx.count("parallel_runs_equal_serial")
+    # ---- functions that reduce over the components of their point
+    for fn, fname in ((normalised, "J / J.max()"), (sorted_couplings, "np.sort(J)")):
+        serial = np.array([fn(J) for J in pts]).T
+        for n_jobs in ([1, 2, 5] if quick else [1, 2, 3, 5, 8, 16]):
+            name = f"compute_phase_diagram({fname}, n_jobs={n_jobs})"
+            try:
+                data = quiet(lambda: pdg.compute_phase_diagram(pts, fn, {}, n_jobs=n_jobs))
+            except Exception as ex:
+                ctx.impl_violation(f"{name}: raised {type(ex).__name__}: {ex}", dict(case=name, fn=fname, n_jobs=n_jobs)); continue
+            if data.shape != serial.shape or not np.array_equal(data, serial):
+                ctx.impl_violation(f"{name}: parallel result (shape {data.shape}) differs from the serial evaluation (shape {serial.shape})", dict(case=name, fn=fname, n_jobs=n_jobs)); continue
+            ctx.case((name,), nontrivial=n_jobs > 1); ctx.count("parallel_runs_equal_serial")
+    # ---- two calls in a row with the same function and the same extra-arguments dict object, edited in place in between: each call evaluates with the
+    #      arguments as they are when it is made
+    shared = dict(scale=2.0, offset=0.5)
+    for n_jobs in ([2, 4] if quick else [1, 2, 3, 4, 8]):
+        name = f"compute_phase_diagram(scalar, same extra_args dict edited in place between calls, n_jobs={n_jobs})"
+        try:
+            shared["scale"], shared["offset"] = 2.0, 0.5
+            first = quiet(lambda: pdg.compute_phase_diagram(pts, slow_scalar_kw, shared, n_jobs=n_jobs))
+            shared["scale"], shared["offset"] = -3.0, 1.25
+            second = quiet(lambda: pdg.compute_phase_diagram(pts, slow_scalar_kw, shared, n_jobs=n_jobs))
+            want1 = np.array([slow_scalar_kw(J, scale=2.0, offset=0.5) for J in pts]).T; want2 = np.array([slow_scalar_kw(J, scale=-3.0, offset=1.25) for J in pts]).T
+            if not (np.array_equal(first, want1) and np.array_equal(second, want2)):
+                ctx.impl_violation(f"{name}: the second call does not evaluate the function with the edited arguments (or the first with the original ones)", dict(case=name, n_jobs=n_jobs))
+        except Exception as ex:
+            ctx.impl_violation(f"{name}: raised {type(ex).__name__}: {ex}", dict(case=name, n_jobs=n_jobs))
+        ctx.case((name,), nontrivial=True)
     ctx.assumptions += ["mpire's WorkerPool (chunking, result ordering, numpy concatenation) and the OS scheduler are third-party: the theorem covers every chunking and "
                         "arrival order of the abstract reassembly; real schedules are sampled (index-dependent sleeps, n_jobs 1..16)",
                         "matplotlib.tri.Triangulation keeps the node arrays it is given"]
